@@ -2386,7 +2386,8 @@ class Array:
         if not isinstance(other, Array) or not np.isscalar(prefactor):
             raise ValueError(f'wrong argument types: {type(prefactor)!r}, {type(other)!r}')
         dtype = np.result_type(self.dtype, other.dtype, prefactor)
-        self.ibinary_blockwise(np.add, other.__mul__(prefactor))
+        # multiply in the common dtype (as the compiled version): `other * prefactor` alone rounds / overflows in other.dtype
+        self.ibinary_blockwise(np.add, other.astype(dtype, copy=False).__mul__(prefactor))
         if prefactor != 0.0:
             # the stored blocks of `self` and `other` alone need not give the common dtype
             self._iset_dtype(dtype)
